@@ -158,6 +158,35 @@ def rule_fill_buf(facts):
                         r.bad("%s|scan-bounded" % fn, "the loop over refills can be left for a reason other than the peeked data (e.g. a round "
                               "counter): the verdict depends on how many fragments the reader delivers", pat.where(b, bad_exit))
                     else:
+                        # the verdict is accumulated over the fragments: a value that leaves the function and is computed from the
+                        # peeked data inside the loop must carry what the earlier rounds found (`ok &= ..`, an early return);
+                        # `ok = buf.iter().all(..)` lets the last fragment alone decide (seeded C06-i)
+                        def _alts(t_):
+                            if isinstance(t_, tuple) and len(t_) == 2 and t_[0] == "phi" and isinstance(t_[1], tuple):
+                                for x_ in t_[1]:
+                                    for y_ in _alts(x_):
+                                        yield y_
+                            else:
+                                yield t_
+                        is_lv = lambda q: q[0] in ("phi", "rec") and len(q) == 2 and isinstance(q[1], int)
+                        over = None
+                        for blk3 in b.blocks:
+                            if blk3.cleanup:
+                                continue
+                            for st3 in blk3.stmts:
+                                if st3.k != "assign" or st3.place.local != 0:
+                                    continue
+                                for o3 in getattr(st3.rv, "ops", None) or []:
+                                    for a3 in _alts(tm.of_operand(o3)):
+                                        if flow.term_has(a3, is_me) and not flow.term_has(a3, is_lv) and \
+                                                not ((pat.has_call(a3, "is_empty") or pat.has_call(a3, "::len")) and not pat.has_call(a3, "Iterator::")):
+                                            over = (blk3.idx, a3)
+                        if over is not None:
+                            okk = False
+                            r.bad("%s|scan-overwrite" % fn, "the result of the scan is recomputed from each peeked fragment (%s) without the "
+                                  "verdict of the earlier ones: only the last fragment the reader delivers decides" % flow.show(over[1])[:80],
+                                  pat.where(b, over[0]))
+                            continue
                         detail.append("scan loop: consume(len) and back to fill_buf until empty")
             if okk:
                 r.ok("provenance", {"fn": fn, "uses": detail or ["emptiness"]})
